@@ -327,6 +327,14 @@ func Stretch(t *rapid.T, tk *Tok) {
 // Gen draws a token descriptor of either type.
 func Gen(t *rapid.T, cfg GenCfg) Tok {
 	tk := gen(t, cfg)
+	if rapid.Bool().Draw(t, "optperm") {
+		n := rapid.IntRange(1, 1<<16).Draw(t, "optperm_n")
+		if tk.Dlg != nil {
+			tk.Dlg.OptPerm = n
+		} else {
+			tk.Inv.OptPerm = n
+		}
+	}
 	if !cfg.NoStretch && rapid.IntRange(0, 9).Draw(t, "stretch") == 4 {
 		Stretch(t, &tk)
 	}
